@@ -18,6 +18,33 @@ mod suites_serve;
 
 use common::Emit;
 
+/// The system allocator with a count of the bytes currently allocated: lets a suite see memory
+/// being released (C11: "what was queued is released" when the body is dropped).
+pub struct CountingAlloc;
+pub static LIVE_BYTES: std::sync::atomic::AtomicI64 = std::sync::atomic::AtomicI64::new(0);
+unsafe impl std::alloc::GlobalAlloc for CountingAlloc {
+    unsafe fn alloc(&self, l: std::alloc::Layout) -> *mut u8 {
+        let p = std::alloc::System.alloc(l);
+        if !p.is_null() {
+            LIVE_BYTES.fetch_add(l.size() as i64, std::sync::atomic::Ordering::Relaxed);
+        }
+        p
+    }
+    unsafe fn dealloc(&self, p: *mut u8, l: std::alloc::Layout) {
+        LIVE_BYTES.fetch_sub(l.size() as i64, std::sync::atomic::Ordering::Relaxed);
+        std::alloc::System.dealloc(p, l)
+    }
+    unsafe fn realloc(&self, p: *mut u8, l: std::alloc::Layout, new_size: usize) -> *mut u8 {
+        let q = std::alloc::System.realloc(p, l, new_size);
+        if !q.is_null() {
+            LIVE_BYTES.fetch_add(new_size as i64 - l.size() as i64, std::sync::atomic::Ordering::Relaxed);
+        }
+        q
+    }
+}
+#[global_allocator]
+static GLOBAL: CountingAlloc = CountingAlloc;
+
 fn main() {
     let args: Vec<String> = std::env::args().collect();
     if args.len() < 5 || args[1] != "gen" {
